@@ -286,6 +286,13 @@ Qed.
 Lemma take_mask_length : forall (d0 : T) cum m, length (take_mask d0 cum m) = length m.
 Proof. intros. unfold take_mask. apply map_length. Qed.
 
+Lemma take_mask_nth : forall (d0 : T) cum m i, i < length m ->
+  nth i (take_mask d0 cum m) d0 = nth (nth i m 0) cum d0.
+Proof.
+  intros d0 cum m. unfold take_mask. induction m as [|k r IH]; intros i Hi; [simpl in Hi; lia|].
+  destruct i as [|i]; simpl; [reflexivity|]. apply IH. simpl in Hi. lia.
+Qed.
+
 Lemma zipmul_nth : forall (a b : list T) d i, length a = length b -> i < length a ->
   nth i (zipmul a b) d = fmul F (nth i a d) (nth i b d).
 Proof.
